@@ -343,6 +343,32 @@ def c15_batches(tier):
     return bs
 
 
+# ----------------------------------------------------------------------------- C16
+def c16_batches(tier):
+    q = tier == "quick"
+    bs = []
+    for be in BACKENDS:
+        for var in ("optim-asan", "debug-asan"):
+            slow = 1.0 if var.startswith("optim") else 0.5
+            extra = {"Bmax": 10} if (var.startswith("debug") and be.startswith("nayuki")) else {}
+            # life cycles over the whole configuration matrix (small dimensions: many short runs)
+            bs.append(B("life-small-%s-%s" % (be, var), "life", be, var, (60 if q else 1500) * slow, maxn=9, nops=12, weight=30 if q else 300, max_procs=3, **extra))
+            # large dimensions incl. n > N (memory heavy: few runs)
+            bs.append(B("life-large-%s-%s" % (be, var), "life", be, var, (4 if q else 60) * slow, nops=6, membudget=120e6, weight=60 if q else 300, max_procs=2, det_count=1, **extra))
+            # the other scenarios under the sanitizers: gates, transport, faults, low-level clients, concurrency
+            bs.append(B("gates-%s-%s" % (be, var), "gates", be, var, (30 if q else 600) * slow, spec="swarm:12", specpool=4, nkeys=1, stats=0, weight=20 if q else 200, max_procs=2))
+            bs.append(B("io-%s-%s" % (be, var), "io", be, var, (40 if q else 800) * slow, spec="swarm:6", specpool=2, nkeys=1, weight=15 if q else 150, max_procs=2))
+            bs.append(B("iofault-%s-%s" % (be, var), "iofault", be, var, (20 if q else 400) * slow, spec="swarm:4", specpool=2, fmode="mix", attempts=30, weight=15 if q else 150,
+                        max_procs=2))
+            bs.append(B("low-%s-%s" % (be, var), "low", be, var, (16 if q else 400) * slow, spec="swarm:8", specpool=2, nkeys=1, nops=5, weight=20 if q else 200, max_procs=2,
+                        **({"xBmax": 10} if extra else {})))
+            bs.append(B("conc-%s-%s" % (be, var), "conc", be, var, (16 if q else 400) * slow, spec="swarm:8", specpool=2, nkeys=1, maxw=6, weight=20 if q else 200, max_procs=2))
+    # plain builds: dirty-memory differential (two fill patterns) of the life cycles incl. the hand-written assembly paths
+    for be in BACKENDS:
+        bs.append(B("life-dirty-%s-optim" % be, "life", be, "optim", 40 if q else 1500, maxn=9, nops=12, weight=20 if q else 200, det_count=40 if q else 400))
+    return bs
+
+
 # ----------------------------------------------------------------------------- C17
 def c17_batches(tier):
     q = tier == "quick"
@@ -576,6 +602,27 @@ RECIPES = {
         "level_note": "Snapshots compare state after the call (the decomposition's transient offset on its const input is allowed). Whole cloud keys "
                       "are hashed at every call on swarm sets and at the last call of a run on default sets.",
         "assumptions": ["64-bit hash collisions are negligible"],
+    },
+    "C16": {
+        "level": "exploration",
+        "batches": c16_batches,
+        "extra_oracles": ["dirty"],
+        "rule": "life: one run = one configuration of the matrix n in {1,3,7,8,9,500,630,1024,1025,1100} x k in {1,2} x (l,Bgbit) in a grid of 10 x "
+                "(t,basebit) in a grid of 10 (memory-capped) and a sequence of 6-12 operations generated from a typestate model of the API "
+                "(encrypt with the three allocation idioms, gates, export/import of cloud key, secret key and ciphertexts on both transports, "
+                "gates under imported keys, low-level calls incl. bootstrap without key switch, alloc/init/destroy/free quadruples and "
+                "array variants, short-lived threads, second key, deletions in any allowed order) followed by a complete teardown and "
+                "collector finalize. Other scenarios (gates, io, iofault, low, conc) ride along under the sanitizers. non-trivial = every run",
+        "technique": "deterministic simulation of API life cycles with the allocator as a fault surface: AddressSanitizer/UBSan builds of the library "
+                     "(reports classified from worker deaths), LeakSanitizer recoverable checks at the end of each sequence, and a dirty-memory "
+                     "differential (each plan executed under two heap fill patterns, event hashes compared)",
+        "level_text": "Seeded exploration over the configuration matrix and API orders on all five back-ends, optim and debug, under ASan+UBSan; "
+                      "any sanitizer report, any unreachable allocation after teardown or thread exit, and any observable difference between two "
+                      "heap fill patterns is a violation.",
+        "level_note": "ASan does not see inside the hand-written assembly (.s files, inline asm); those paths are covered only through the "
+                      "dirty-memory differential and the n < 8 / n > N configurations on the plain optim build. UBSan runs without the "
+                      "signed-overflow and shift checks (Torus32 wraps by design). valgrind cannot run the optim build on this CPU (AVX-512).",
+        "assumptions": ["sanitizer runtimes of gcc 12"],
     },
     "C17": {
         "level": "exploration",
